@@ -375,6 +375,35 @@ summary(void)
          n_emit_calls, n_fastpath_blocks, n_mismatch);
 }
 
+#ifdef FUZZ
+/* libFuzzer entry: bytes 0-1 capacity, byte 2 number of split sizes, then the
+   split sizes, then the input; any oracle mismatch aborts. */
+int
+LLVMFuzzerTestOneInput(const uint8_t *data, size_t size)
+{
+  size_t cap, sp[4], nsp, i;
+  unsigned long long before = n_mismatch;
+
+  if (size < 8)
+    return 0;
+  cap = 1 + ((data[0] << 8 | data[1]) % 2000);
+  nsp = 1 + data[2] % 4;
+  for (i = 0; i < nsp; i++)
+    sp[i] = data[3 + i] % 5 == 0 ? data[3 + i] % 3 : 1 + data[3 + i] * 13u;
+  {
+    size_t tot = 0;
+    for (i = 0; i < nsp; i++)
+      tot += sp[i];
+    if (tot == 0)
+      sp[0] = 1;
+  }
+  rng = 0x12345 + size;
+  run_case(data + 7, size - 7, cap, sp, nsp, 1);
+  if (n_mismatch != before)
+    abort();
+  return 0;
+}
+#else
 int
 main(int argc, char **argv)
 {
@@ -498,3 +527,4 @@ main(int argc, char **argv)
   fprintf(stderr, "usage: codec_h exh|rnd|one ...\n");
   return 2;
 }
+#endif
